@@ -64,6 +64,8 @@ Extraction "model.ml"
   acc_iter_from_ring
   acc_offdeg
   acc_offdeg_from
+  acc_offdeg_ring
+  acc_offdeg_from_ring
   acc_next_successors
   seq_iter_from
   ra_labels
